@@ -1040,12 +1040,12 @@ func c04ServerFlag(w *World, r *Report, key, pos string, flag *types.Var) {
 			switch kind {
 			case "plain":
 				plain++
-				if !dominatedByCond(fn, call, isFlag, false) {
+				if !dominatedByCond(fn, call, isFlag, false) && !closureRunsOnlyUnder(fn, isFlag, false) {
 					bad = fmt.Sprintf("%s: plaintext serving primitive is used on a path where the server's secure flag is not known false", w.Pos(call.Pos()))
 				}
 			case "tls":
 				tlsUse++
-				if !dominatedByCond(fn, call, isFlag, true) {
+				if !dominatedByCond(fn, call, isFlag, true) && !closureRunsOnlyUnder(fn, isFlag, true) {
 					bad = fmt.Sprintf("%s: TLS serving primitive is not under the secure flag", w.Pos(call.Pos()))
 				}
 			}
@@ -1402,4 +1402,80 @@ func c04MustSecurePlumbing(w *World, r *Report) {
 		}
 	}
 	r.Check(bad2 == "" && ncall > 0, "R04.7", "field:client/upstream.Upstreams.MustSecure|handed-on", w.Pos(must.Pos()), fmt.Sprintf("%d Connect call(s) receive the field unchanged", ncall), bad2+mapStr(ncall == 0, "no Upstream.Connect call found in Upstreams"))
+}
+
+// closureRunsOnlyUnder: g is a function literal that is selected as a function value (`serve := plain; if secure
+// { serve = tls }; serve()`): on every path of the enclosing function that reaches a call which runs THIS literal,
+// a value accepted by isFlag has been tested with the outcome `want`. False when the literal is not called through
+// such a selection in its parent (then plain dominance decides).
+func closureRunsOnlyUnder(g *ssa.Function, isFlag func(ssa.Value) bool, want bool) bool {
+	p := g.Parent()
+	if p == nil {
+		return false
+	}
+	var mcs []*ssa.MakeClosure
+	allInstrs(p, func(in ssa.Instruction) {
+		if mc, ok := in.(*ssa.MakeClosure); ok && mc.Fn == ssa.Value(g) {
+			mcs = append(mcs, mc)
+		}
+	})
+	if len(mcs) != 1 {
+		return false
+	}
+	mc := mcs[0]
+	// the literal must not escape in any other way than into phis and calls
+	var sites []ssa.CallInstruction
+	seen := map[ssa.Value]bool{}
+	escapes := false
+	var follow func(v ssa.Value)
+	follow = func(v ssa.Value) {
+		if seen[v] || v.Referrers() == nil {
+			return
+		}
+		seen[v] = true
+		for _, ref := range *v.Referrers() {
+			switch x := ref.(type) {
+			case *ssa.Phi:
+				follow(x)
+			case ssa.CallInstruction:
+				if x.Common().Value == v && !x.Common().IsInvoke() {
+					sites = append(sites, x)
+				} else {
+					escapes = true
+				}
+			case *ssa.DebugRef:
+			default:
+				escapes = true
+			}
+		}
+	}
+	follow(mc)
+	if escapes || len(sites) == 0 {
+		return false
+	}
+	ok := true
+	for _, site := range sites {
+		si := site.(ssa.Instruction)
+		okp := enumPaths(p, nil, nil, func(in ssa.Instruction) bool { return in == si }, func(e pathExit) {
+			if e.Stop != si {
+				return
+			}
+			if e.State.Resolve(site.Common().Value) != ssa.Value(mc) {
+				return // another literal runs on this path
+			}
+			found := false
+			for v, t := range e.State.Facts {
+				if isFlag(v) && t == want {
+					found = true
+				}
+			}
+			if !found {
+				ok = false
+			}
+		})
+		if !okp {
+			return false
+		}
+	}
+	return ok
 }
